@@ -15,7 +15,9 @@ def run(R, ctx):
     concsuite.run_conc(R, ctx, "single-key", families.conc_scenarios(), (6, 60))
     R.rule = rule + (" Concurrent exploration: 2-16 goroutines x 12-40 commands on 1-3 keys that collide on a stripe (ShardNum 1, 2, 1024); "
                      "each per-key history is checked for linearizability (porcupine), every goroutine's events for the lockset discipline, the keyspace "
-                     "counter and KEYS/EXISTS at quiescence; run again under the Go race detector. A history is non-trivial with >= 2 goroutines.")
+                     "counter and KEYS/EXISTS at quiescence; run again under the Go race detector. Scenario bigread: containers of 2 000-4 000 elements (sorted set, hash, set, list) that only grow while 5 readers list them "
+                     "through every listing command; each listing must contain every element acknowledged before its invocation, nothing not yet sent at its return, no element twice, in the family's order. "
+                     "A history is non-trivial with >= 2 goroutines.")
 
 
 def replay(R, payload):
